@@ -125,6 +125,7 @@ func (w *world) release() {
 		in.Release()
 	}
 	w.inputs = nil
+	w.w.release()
 	if !w.closed {
 		hx.Catch(func() { w.e.Close() })
 	}
